@@ -303,6 +303,7 @@ func runC13(c *Ctx) {
 		R.Ob("(*Conn).handleBdat/receives the delivery result", c.P.Pos(f0.Pos()), nRecv >= 1, "no receive from Conn.dataResult")
 	}
 	ruleGoCapture(c)
+	ruleReplyFormat(c)        // "each naming its recipient": the recipient and the status text are printed as data, never as a printf format
 	ruleWriteDeadlineOwner(c) // every one of the n replies is written, however late its status arrives
 }
 
